@@ -480,6 +480,7 @@ type Contract struct {
 	ModItems []*ModItem
 	ModAll   bool
 	NReturns int // if > 0: the function must have exactly this many return statements
+	Using    []string
 	Flags    map[string]bool
 	Panics   bool
 	File     string
@@ -512,6 +513,7 @@ type EnumVar struct {
 }
 
 type Lemma struct {
+	Using    []string
 	Name     string
 	Params   []Param
 	Clauses  []*Clause
@@ -884,7 +886,7 @@ func (ss *SpecSet) parseSpecText(file, pkgPath, text string) {
 				continue
 			}
 			fs := strings.SplitN(rest, " ", 3)
-			if len(fs) < 3 || fs[1] != "ensures" {
+			if len(fs) < 3 || (fs[1] != "ensures" && fs[1] != "use") {
 				errf(ln, "bad return clause")
 				continue
 			}
@@ -893,7 +895,7 @@ func (ss *SpecSet) parseSpecText(file, pkgPath, text string) {
 				errf(ln, "bad return clause %q", rest)
 				continue
 			}
-			cl := &Clause{Kind: "ensures", Ret: n, Text: fs[2], Props: props, Line: ln + 1, File: file}
+			cl := &Clause{Kind: fs[1], Ret: n, Text: fs[2], Props: props, Line: ln + 1, File: file}
 			cur.Clauses = append(cur.Clauses, cl)
 			last = cl
 		case "loop":
@@ -941,6 +943,27 @@ func (ss *SpecSet) parseSpecText(file, pkgPath, text string) {
 						cur.ModItems = append(cur.ModItems, &ModItem{E: e, Text: m, Line: ln + 1})
 					}
 				}
+			}
+		case "use":
+			// in a lemma: an instance of an axiom or of another lemma, stated explicitly
+			finish()
+			if curLemma != nil {
+				cl := &Clause{Kind: "use", Text: rest, Props: props, Line: ln + 1, File: file}
+				curLemma.Clauses = append(curLemma.Clauses, cl)
+				last = cl
+			} else if cur != nil {
+				cl := &Clause{Kind: "use", Text: rest, Props: props, Line: ln + 1, File: file}
+				cur.Clauses = append(cur.Clauses, cl)
+				last = cl
+			}
+		case "using":
+			// restrict the spec axioms and lemmas available to this contract / lemma (fewer
+			// assumptions: always sound, keeps queries small)
+			names := strings.Fields(strings.ReplaceAll(rest, ",", " "))
+			if curLemma != nil {
+				curLemma.Using = append(curLemma.Using, names...)
+			} else if cur != nil {
+				cur.Using = append(cur.Using, names...)
 			}
 		case "flag":
 			if cur != nil {
